@@ -27,7 +27,8 @@
     preserve_table_is_pre_textarea html_roundtrip_tree_mixed_partial xhtml_roundtrip_tree_mixed_tokens_partial
     html_roundtrip_doc_mixed_partial strip_is_norm_forest_mixed_partial html_roundtrip_doc_mixed_strip_partial
     xhtml_roundtrip_tree_mixed_tokens_strip_partial xhtml_roundtrip_tree_mixed_qnames_partial
-    xhtml_roundtrip_tree_mixed_qnames_strip_partial
+    xhtml_roundtrip_tree_mixed_qnames_strip_partial markup_leaves_as_plain_partial html_roundtrip_doc_markup_partial
+    xhtml_roundtrip_doc_readxml_markup_partial
 -/
 import Genshi.Lemmas.ReaderXhtml
 import Genshi.Lemmas.ReaderTree
@@ -42,6 +43,7 @@ import Genshi.Lemmas.ReaderTreeMixed
 import Genshi.Lemmas.ReaderDocMixed
 import Genshi.Lemmas.OutputWsMixed
 import Genshi.Lemmas.ReaderXmlViewMixed
+import Genshi.Lemmas.OutputMarkupForest
 import Genshi.Lemmas.OutputSafeText
 import Genshi.Lemmas.Output
 import Genshi.Lemmas.OutputFlatten
@@ -1238,6 +1240,89 @@ example : mergeGoQ [] (forestPiecesQ exMixed) =
     [.start ⟨xhtmlNs, ['d', 'i', 'v']⟩ [], .start ⟨[], ['p']⟩ [], .start ⟨xhtmlNs, ['b', 'r']⟩ [],
       .end_ ⟨xhtmlNs, ['b', 'r']⟩, .text ['<'], .end_ ⟨[], ['p']⟩, .start ⟨xhtmlNs, ['b']⟩ [], .start ⟨[], ['i']⟩ [],
       .end_ ⟨[], ['i']⟩, .end_ ⟨xhtmlNs, ['b']⟩, .end_ ⟨xhtmlNs, ['d', 'i', 'v']⟩] := by decide
+
+/-! ### Markup text leaves in the document theorems -/
+
+/-- A forest with Markup (pre-escaped) text leaves is written exactly like its plain form
+    `plainF m false ns` — every Markup leaf replaced by the plain text leaf of its `unescape` (inside
+    script / style under html: of the text itself) — for every method, cache setting and doctype
+    option, on `mkDom`: a Markup leaf outside raw context is the escape of some string (`ProperEsc`),
+    script / style hold only text, no CDATA markers.  Forest-level form of `markup_text_as_plain`. -/
+theorem markup_leaves_as_plain_partial (m : Method) (cache dropd : Bool) (u : Str) (hu : u ≠ xmlNs)
+    (dopt : Option DocTypeT) (ns : List Node)
+    (hok : okList ns = true) (hns : forestUniformNs u ns = true) (hd : mkDom m ns = true) :
+    render m { strip := false, cache := cache, doctype := dopt, dropXmlDecl := dropd } (flattenList ns) =
+      render m { strip := false, cache := cache, doctype := dopt, dropXmlDecl := dropd }
+        (flattenList (plainF m false ns)) := by
+  have hc : ∀ (s : Stream),
+      render m { strip := false, cache := cache, doctype := dopt, dropXmlDecl := dropd } s =
+      render m { strip := false, cache := false, doctype := dopt, dropXmlDecl := dropd } s := by
+    intro s
+    cases cache
+    · rfl
+    · exact Genshi.Props.C08.render_cache_irrelevant' m false dopt dropd s
+  rw [hc, hc]
+  have h1 := filtered_forestU_dt m dropd u hu dopt ns hok hns
+  have h2 := filtered_forestU_dt m dropd u hu dopt (plainF m false ns) (by rw [okList_plainF]; exact hok)
+    (by rw [uniformNs_plainF]; exact hns)
+  have hl : ∀ evs, loop m ⟨dropd⟩ false {} evs = serSpec m ⟨dropd⟩ {} evs :=
+    fun evs => loop_nocache_eq_spec m ⟨dropd⟩ evs {}
+  simp only [render, chunks, h1, h2, Option.map_some, hl]
+  rw [serSpec_mk_dt_eq m ⟨dropd⟩ u dopt ns hd]
+
+theorem plainF_doc (m : Method) (decl : Option DeclT) (dt : Option DocTypeT) (body : List Node) :
+    plainF m false (docNodes decl dt body) = docNodes decl dt (plainF m false body) := by
+  cases decl <;> cases dt <;> simp [docNodes, declN, dtN, plainF, plainT]
+
+theorem mkDom_doc (m : Method) (decl : Option DeclT) (dt : Option DocTypeT) (body : List Node)
+    (h : mkDom m body = true) : mkDom m (docNodes decl dt body) = true := by
+  cases decl <;> cases dt <;> simpa [docNodes, declN, dtN, mkDom, mkDomF, mkDomT] using h
+
+/-- **html, whole documents with Markup text leaves** (strip off): html.parser reads back the winning
+    DOCTYPE and the body with every Markup leaf as the text it is the escape of -/
+theorem html_roundtrip_doc_markup_partial (cache dropd : Bool) (u : Str) (hu : u ≠ xmlNs) (dopt : Option DocTypeT)
+    (decl : Option DeclT) (dt : Option DocTypeT) (body : List Node)
+    (hok : okList body = true) (hns : forestUniformNs u body = true) (hd : mkDom .html body = true)
+    (hh : htmlForestOkP (plainF .html false body) = true)
+    (hwin : dtOkOf (winDt dopt dt) = true) (hgt : dtNoGtOf (winDt dopt dt) = true) :
+    (render .html { strip := false, cache := cache, doctype := dopt, dropXmlDecl := dropd }
+        (flattenList (docNodes decl dt body))).bind readHtml =
+      some (htmlDocView (winDt dopt dt) (forestPiecesP (plainF .html false body))) := by
+  rw [markup_leaves_as_plain_partial .html cache dropd u hu dopt _ (okList_doc decl dt body hok)
+    (uniformNs_doc u decl dt body hns) (mkDom_doc .html decl dt body hd), plainF_doc]
+  exact html_roundtrip_doc_partial cache dropd u hu dopt decl dt _ (by rw [okList_plainF]; exact hok)
+    (by rw [uniformNs_plainF]; exact hns) hh hwin hgt
+
+/-- **xhtml, whole documents with Markup text leaves** (strip off), expat's reading (`readXml`) -/
+theorem xhtml_roundtrip_doc_readxml_markup_partial (cache dropd : Bool) (u : Str) (hu : u ≠ xmlNs)
+    (huv : attrValOkB u = true)
+    (dopt : Option DocTypeT) (decl : Option DeclT) (dt : Option DocTypeT) (body : List Node)
+    (hok : okList body = true) (hns : forestUniformNs u body = true) (hd : mkDom .xhtml body = true)
+    (hh : xKidsOkP false (plainF .xhtml false body) = true) (hx : xmlForestOkP true (plainF .xhtml false body) = true)
+    (hdecl : xdViewOk ⟨dropd⟩ decl = true) (hwin : dtOkOf (winDt dopt dt) = true)
+    (hcr : docNcr u dopt decl dt (plainF .xhtml false body) = true) :
+    (render .xhtml { strip := false, cache := cache, doctype := dopt, dropXmlDecl := dropd }
+        (flattenList (docNodes decl dt body))).bind readXml =
+      some (xdXOf ⟨dropd⟩ decl ++ (dtXOf (winDt dopt dt) ++
+        (assemble (forestPiecesXP u false (plainF .xhtml false body))).flatMap (xmlMapTok u))) := by
+  rw [markup_leaves_as_plain_partial .xhtml cache dropd u hu dopt _ (okList_doc decl dt body hok)
+    (uniformNs_doc u decl dt body hns) (mkDom_doc .xhtml decl dt body hd), plainF_doc]
+  exact xhtml_roundtrip_doc_readxml_partial cache dropd u hu huv dopt decl dt _ (by rw [okList_plainF]; exact hok)
+    (by rw [uniformNs_plainF]; exact hns) hh hx hdecl hwin hcr
+
+def exMarkupBody : List Node :=
+  [.elem ⟨xhtmlNs, ['p']⟩ []
+    [.leaf (.text ['a', '&', 'l', 't', ';'] true), .leaf (.text ['<'] false),
+     .elem ⟨xhtmlNs, ['s', 'c', 'r', 'i', 'p', 't']⟩ [] [.leaf (.text ['1', '&', 'a', 'm', 'p', ';'] true)]]]
+
+example : okList exMarkupBody = true ∧ forestUniformNs xhtmlNs exMarkupBody = true ∧ mkDom .html exMarkupBody = true ∧
+    mkDom .xhtml exMarkupBody = true ∧ htmlForestOkP (plainF .html false exMarkupBody) = true ∧
+    xKidsOkP false (plainF .xhtml false exMarkupBody) = true ∧
+    xmlForestOkP true (plainF .xhtml false exMarkupBody) = true := by decide
+
+example : htmlDocView none (forestPiecesP (plainF .html false exMarkupBody)) =
+    [.start ['p'] [], .text ['a', '<', '<'], .start ['s', 'c', 'r', 'i', 'p', 't'] [],
+     .text ['1', '&', 'a', 'm', 'p', ';'], .end_ ['s', 'c', 'r', 'i', 'p', 't'], .end_ ['p']] := by decide
 
 def exProlog : List FEv :=
   [.xmlDecl ['1', '.', '0'] none (-1), .doctype ['h', 't', 'm', 'l'] none (some ['a', '"', 'b']),
